@@ -146,7 +146,7 @@ func makeBoxes(tier string) []*Box {
 	add(&Box{ID: "B10", Mode: "B", What: "apply lag with two membership changes, one committed entry per Ready: a slow applier (node 3) steps messages, campaigns and receives votes while a committed page is unapplied; campaigning with committed conf changes anywhere in the apply backlog must be refused",
 		Cfg: lag5, Bud: Budget{MaxTerm: 3, Drops: 1, ConfChanges: 2, Lags: 1, Applies: 1},
 		Depth: 400, MaxDev: 1, Kinds: lagKinds5, Devs: kinds(evDrop, evApply),
-		LeaderPropose: true, LagAt: 3, CampaignBy: lagBy, ConfVariants: []uint16{ccAddV1, ccAddV1Second}, Restrictions: lagRestr, Share: pick(20, 25)})
+		LeaderPropose: true, LagAt: 3, CampaignBy: lagBy, ConfVariants: []uint16{ccAddV1, ccAddV1Second}, Restrictions: lagRestr, Share: pick(14, 25)})
 	if thorough {
 		add(&Box{ID: "B10b", Mode: "B", What: "as B10 with two proposals (normal entries before, between and after the conf changes: the held page and the first page of the backlog may be normal entries or conf changes) and two applies",
 			Cfg: lag5, Bud: Budget{MaxTerm: 3, Proposals: 2, Drops: 1, ConfChanges: 2, Lags: 1, Applies: 2},
@@ -170,7 +170,7 @@ func makeBoxes(tier string) []*Box {
 		add(&Box{ID: "B11", Mode: "B", What: "apply lag on any of three members (leader included) with one membership change (add 4 / remove 3) and crash / restart while a committed page is held; one election",
 			Cfg: lag3, Bud: Budget{MaxTerm: 2, Drops: 1, Crashes: 1, ConfChanges: 1, Lags: 1, Applies: 2},
 			Depth: 400, MaxDev: 1, Kinds: lagKinds, Devs: lagDevs, LeaderPropose: true, CampaignAt: 1, ConfVariants: cc11,
-			Restrictions: []string{"one election, by node 1", "conf changes at the leader only: addV1(4) or removeV1(3)"}, Share: 12})
+			Restrictions: []string{"one election, by node 1", "conf changes at the leader only: addV1(4) or removeV1(3)"}, Share: 6})
 	} else {
 		add(&Box{ID: "B11", Mode: "B", What: "apply lag on any of three members (leader included) with one membership change (add 4 / remove 3) and crash / restart while a committed page is held; second election by any node (campaigns with an apply backlog, restart followed by campaign)",
 			Cfg: lag3, Bud: Budget{MaxTerm: 3, Drops: 1, Crashes: 1, ConfChanges: 1, Lags: 1, Applies: 2},
